@@ -7,7 +7,7 @@
 (* collected as data; the rest of a diverging execution is skipped.        *)
 (* Environment: TRACE = ndjson file, OUT = result file.                    *)
 (***************************************************************************)
-EXTENDS Debugger, Assembler, Json, IOUtils, TLC
+EXTENDS Debugger, Assembler, Flags, Cli, Json, IOUtils, TLC
 
 Tr == ndJsonDeserialize(IOEnv.TRACE)
 OutFile == IOEnv.OUT
@@ -27,7 +27,8 @@ SetOf(seq) == {seq[i] : i \in 1..Len(seq)}
 Has(r, f) == f \in DOMAIN r
 
 MkCtx(o) ==
-    [script |-> H(o.script), sigver |-> o.sigver, flags |-> SetOf(o.flags), z |-> o.z,
+    [script |-> H(o.script), sigver |-> o.sigver,
+     flags |-> IF Has(o, "fmods") THEN ModifyFlags(StrToCodes(o.fmods))[2] ELSE SetOf(o.flags), z |-> o.z,
      lim |-> RealLimits, hasTx |-> FALSE,
      pretend |-> IF Has(o, "pretend") THEN {<<H(o.pretend[i][1]), H(o.pretend[i][2])>> : i \in 1..Len(o.pretend)} ELSE {}]
 
@@ -66,7 +67,7 @@ Init == /\ l = 1 /\ sess = <<>> /\ cur = [id |-> "none", cmp |-> <<>>] /\ mode =
         /\ stats = [execs |-> 0, events |-> 0, unspec |-> 0, refused |-> 0, failed |-> 0, finished |-> 0, skipped |-> 0]
 
 DoOpen(ev) ==
-    /\ cur' = ev /\ sess' = MkSession(ev) /\ mode' = "await"
+    /\ cur' = ev /\ sess' = MkSession(ev) /\ mode' = IF Has(ev, "cli") THEN "run" ELSE "await"
     /\ stats' = Bump("execs") /\ UNCHANGED <<divs, cov>>
 
 \* Opened / Refused must agree with the admissibility rule of the domain (C01) and the size rule (C10)
@@ -118,6 +119,21 @@ DoRun(ev) ==
                                           [fields |-> Mismatch(sess, ev), exp |-> Show(sess)], ev))
               /\ mode' = "skip" /\ UNCHANGED <<cov, sess, cur, stats>>)
     ELSE IF ev.e = "Run" THEN Judge(ev, Continue(sess), "run", TRUE)
+    ELSE IF ev.e = "CliRun" THEN
+        \* one non-interactive run of the real binary: exit status, terminating signal, stdout lines, stderr text
+        LET refused == \/ ~Admissible(sess.ctx.script, RealLimits.elem)
+                       \/ (sess.ctx.sigver \in {"BASE", "WITNESS_V0"} /\ Len(sess.ctx.script) > RealLimits.script)
+                       \/ (Has(cur, "fmods") /\ ~ModifyFlags(StrToCodes(cur.fmods))[1])
+            exp == IF refused THEN sess ELSE Continue(sess)
+            expOut == CliOutcome(refused, exp)
+            obsOut == [code |-> ev.code, sig |-> ev.sig, stdout |-> IF ev.code = 0 THEN ev.stdout ELSE <<>>]
+            errOK == (expOut.code = 1 /\ ~refused /\ "errtext" \in SetOf(cur.cmp)) => ErrTextMatches(exp.vm.err, ev.err)
+        IN IF ~refused /\ exp.vm.status = "unspec" THEN /\ mode' = "skip" /\ stats' = Bump("unspec") /\ UNCHANGED <<divs, cov, sess, cur>>
+           ELSE IF [code |-> expOut.code, sig |-> 0, stdout |-> expOut.stdout] = obsOut /\ errOK
+                THEN /\ mode' = "skip" /\ cov' = cov \cup {<<"cli", IF refused THEN "refused" ELSE exp.vm.err>>}
+                     /\ stats' = Bump(IF expOut.code = 0 THEN "finished" ELSE "failed") /\ UNCHANGED <<divs, sess, cur>>
+                ELSE /\ divs' = Append(divs, Div("non-interactive run", [op |-> "cli", exp |-> expOut, err |-> exp.vm.err, refused |-> refused], ev))
+                     /\ mode' = "skip" /\ UNCHANGED <<cov, sess, cur, stats>>
     ELSE IF ev.e = "Exec" THEN
         LET a == AssembleExec(ev.toks)
         IN IF ~a[1] THEN (IF ~ev.ok THEN UNCHANGED <<divs, cov, sess, cur, mode, stats>>
